@@ -549,6 +549,9 @@ func (rs *rootSet) walk(v ssa.Value, depth int) {
 		rs.walk(x.X, depth+1)
 	case *ssa.Extract:
 		rs.add(x)
+		if call, ok := x.Tuple.(*ssa.Call); ok {
+			rs.walkModuleCall(call, x.Index, depth+1)
+		}
 		rs.walk(x.Tuple, depth+1)
 	case *ssa.BinOp:
 		rs.add(x)
@@ -565,6 +568,15 @@ func (rs *rootSet) walk(v ssa.Value, depth int) {
 		if _, isBuiltin := x.Call.Value.(*ssa.Builtin); isBuiltin {
 			for _, a := range x.Call.Args {
 				rs.walk(a, depth+1)
+			}
+		} else if rs.walkModuleCall(x, 0, depth+1) {
+			// result derives from arguments according to the callee's body (module helper)
+		} else if isProjection(&x.Call) {
+			// pure projections of the receiver (tx.TxHash(), header.BlockHash(), block.GetHeader(), …)
+			if x.Call.IsInvoke() {
+				rs.walk(x.Call.Value, depth+1)
+			} else if len(x.Call.Args) > 0 {
+				rs.walk(x.Call.Args[0], depth+1)
 			}
 		}
 	case *ssa.Alloc:
@@ -605,6 +617,77 @@ func (rs *rootSet) walkStoresInto(addr ssa.Value, depth int) {
 			rs.walk(st.Val, depth)
 		}
 	}
+}
+
+// resultParamSummary: which parameters result #i of a small module function derives from.
+var resultParamMemo = map[*ssa.Function]map[int][]int{}
+var resultParamBusy = map[*ssa.Function]bool{}
+
+func resultParams(fn *ssa.Function, i int) []int {
+	if m, ok := resultParamMemo[fn]; ok {
+		if r, ok := m[i]; ok {
+			return r
+		}
+	} else {
+		resultParamMemo[fn] = map[int][]int{}
+	}
+	if resultParamBusy[fn] || len(fn.Blocks) == 0 || len(fn.Blocks) > 40 {
+		return nil
+	}
+	resultParamBusy[fn] = true
+	defer delete(resultParamBusy, fn)
+	set := map[int]bool{}
+	for _, ret := range returnsOf(fn) {
+		for _, v := range resultValues(ret, i) {
+			inner := &rootSet{seen: map[ssa.Value]bool{}}
+			inner.walk(v, 0)
+			for x := range inner.seen {
+				if p, ok := x.(*ssa.Parameter); ok {
+					if pi := paramIndex(fn, p); pi >= 0 {
+						set[pi] = true
+					}
+				}
+			}
+		}
+	}
+	var out []int
+	for k := range set {
+		out = append(out, k)
+	}
+	resultParamMemo[fn][i] = out
+	return out
+}
+
+// walkModuleCall follows result #idx of a call to a small module helper into the arguments it
+// derives from (e.g. removeHash(h, list) returns a sub-slice of list). Only unexported helpers
+// without receivers are summarised this way.
+func (rs *rootSet) walkModuleCall(call *ssa.Call, idx int, depth int) bool {
+	callee := call.Call.StaticCallee()
+	if callee == nil || callee.Blocks == nil || callee.Signature.Recv() != nil || !inModule(pkgOf(callee)) {
+		return false
+	}
+	if ast_IsExported(callee.Name()) {
+		return false
+	}
+	ps := resultParams(callee, idx)
+	for _, pi := range ps {
+		if pi < len(call.Call.Args) {
+			rs.walk(call.Call.Args[pi], depth)
+		}
+	}
+	return len(ps) > 0
+}
+
+// projections: methods that are pure functions of their receiver (frozen list, dependency types).
+var projectionNames = map[string]bool{"TxHash": true, "BlockHash": true, "OutpointHash": true, "GetHeader": true, "Copy": true}
+
+func isProjection(cc *ssa.CallCommon) bool {
+	o := calleeObj(cc)
+	if o == nil || !projectionNames[o.Name()] {
+		return false
+	}
+	sig, _ := o.Type().(*types.Signature)
+	return sig != nil && sig.Recv() != nil && sig.Params().Len() == 0
 }
 
 // derivesFromCall: some root of v is a call (or extract of a call) to one of names.
